@@ -3,6 +3,7 @@ package main
 // Symbolic execution of go/ssa function bodies (path enumeration, loops cut at invariants).
 
 import (
+	"time"
 	"runtime"
 	"sync"
 	"os"
@@ -89,6 +90,7 @@ type Exec struct {
 	axiomsLoaded bool
 	shaArgs []T
 	commute *commuteCtx
+	deadline time.Time // wall-clock budget of the symbolic execution of one function
 	effectsMode bool // inline every repository callee, loops cut at the invariant true: only the effects are collected
 	famMu     sync.Mutex
 	famReads  map[string]bool // key families read / written by the function under verification
@@ -516,6 +518,9 @@ func isErrorType(t types.Type) bool {
 }
 
 func (x *Exec) execInstrs(st *State, fr *Frame, b *ssa.BasicBlock, start int, k func(*State, Val)) {
+	if !x.deadline.IsZero() && time.Now().After(x.deadline) {
+		x.fail("symbolic execution of %s exceeded its time budget", x.rootFn)
+	}
 	if t := os.Getenv("GOVC_TRACE"); t != "" && strings.Contains(fr.fn.String(), t) {
 		fmt.Fprintf(os.Stderr, "trace[q%d] %s block %d (%s) from %d\n", x.quiet, shortFuncName(fr.fn), b.Index, b.Comment, start)
 	}
